@@ -39,11 +39,11 @@ def ensure_built(log=None):
             rc, out = sh("coq_makefile -f _CoqProject -o Makefile", cwd=COQ, timeout=120)
             if rc:
                 return False, "coq_makefile failed:\n" + out[-2000:]
-        rc, out = sh("timeout 7000 make -j16 2>&1 | grep -v '^COQC\\|^COQDEP\\|^CLEAN' | tail -60", cwd=COQ, timeout=7200)
-        rc2, _ = sh("make -q", cwd=COQ, timeout=300)
+        rc, out = sh("timeout 7000 make -j16 2>&1", cwd=COQ, timeout=7200)
+        out = "\n".join(l for l in out.split("\n") if not re.match(r"^(COQC|COQDEP|CLEAN|Closed under)", l))
         missing = [f for f in v_files() if not os.path.exists(os.path.join(COQ, f[:-2] + ".vo"))]
-        if missing:
-            return False, "coq build failed (missing %s):\n%s" % (missing[:5], out[-3000:])
+        if rc or missing:
+            return False, "coq build failed (rc %s, missing %s):\n%s" % (rc, missing[:5], out[-3000:])
         # extraction + driver
         drv = os.path.join(BUILD, "mvdriver")
         newest = max(os.path.getmtime(p) for p in glob.glob(os.path.join(COQ, "Model", "*.vo")))
